@@ -87,7 +87,8 @@ def normalize(raw_files, out_path, primary="n1", only=None, conf_by_run=None):
                          "line": raw["line"]}
                 elif ev == "deliver":
                     o = {"ev": "msg", "run": raw["run"], "kind": classify(raw["line"], raw.get("from_role", ""), False),
-                         "from": raw["from"], "to": raw["to"], "line": raw["line"][:200]}
+                         "from": raw["from"], "to": raw["to"], "line": raw["line"][:200],
+                         "conflict": " $conflicts_" in raw["line"]}
                 elif ev == "reply":
                     if raw["line"] == "ok":
                         continue
